@@ -114,6 +114,7 @@ Definition spec_roundtrip (ref : node) (w : world) (only : list bytes) : bool :=
     match snd f with
     | Some s =>
       if negb (mem (fst f) (w_index w)) then true else
+      if match only with [] => false | _ => negb (mem (fst f) only) end then true else
       forallb (fun a =>
         if a_skip a then true else
         match get ref (comps (a_path a)), get (w_root w) (comps (a_path a)) with
@@ -366,12 +367,29 @@ Definition has_obs (c : tcase) (n : N) : bool := existsb (N.eqb n) (t_obs c).
 
 Definition has_spec (c : tcase) (n : N) : bool := existsb (N.eqb n) (t_specs c).
 
+(* the stages a checkout with explicit targets visits ([] = all) *)
+Definition cmd_scope (c : tcase) : list bytes :=
+  match t_cmd c with
+  | CCheckout ((_ :: _) as ts) _ single =>
+    match load_index (w_index (t_pre c)) (w_stages (t_pre c)) [] with
+    | Some idx =>
+      match fold_left (fun acc t => match acc with
+                                    | Ok done => walk_stage (S (length idx)) idx (negb single) done [] t
+                                    | Err => Err end) ts (Ok []) with
+      | Ok done => done
+      | Err => []
+      end
+    | None => []
+    end
+  | _ => []
+  end.
+
 Definition spec_table (c : tcase) : list (N * bool) :=
   [
    (1, (spec_cache (w_cache (t_pre c)) (w_cache (t_post c))));
    (12, (spec_cache_all (w_cache (t_post c))));
    (2, (t_ok c && world_eqb (t_pre c) (t_post c)));
-   (3, (match t_ref c with Some r => t_ok c && spec_roundtrip r (t_post c) [] | None => true end));
+   (3, (match t_ref c with Some r => t_ok c && spec_roundtrip r (t_post c) (cmd_scope c) | None => true end));
    (5, (negb (t_ok c)));
    (7, ((if t_ok c then spec_merkle (t_post c) else true)));
    (8, (cache_eqb (w_cache (t_pre c)) (w_cache (t_post c))));
